@@ -20,7 +20,9 @@ fn profile(rng: &mut Rng) -> Profile {
         2 => CommitSched::Random(1, 2),
         _ => CommitSched::Random(1, 5),
     };
-    p.p_reorg = (0, 1);
+    // reorgs are part of the common history of both replicas (a commit before a deep reorg must not matter)
+    p.p_reorg = (1, *rng.pick(&[6u64, 10, 1000]));
+    p.reorg_back = vec![(1, 3), (2, 2), (3, 1), (9, 3), (10, 5), (11, 1)];
     p.p_clear = (1, *rng.pick(&[4u64, 8, 16]));
     p.p_restart = (1, *rng.pick(&[4u64, 8, 16]));
     p.p_midblock = (1, 6);
@@ -63,10 +65,10 @@ impl Prop for C03 {
         case_of(&g.scenario())
     }
     fn rule(&self) -> String {
-        "case = seeded history executed on replica A with its commit schedule {every block, every k, random}, clearCaches (block boundary and mid-block) and restarts (with/without commit) inserted, and on replica B that never commits and is never disturbed. Oracles: every call result equal on A and B; obs(A)==obs(B) after every commit, after commit+restart and at sampled block boundaries; after clearCaches / restart without commit obs(A)==obs(fresh replay up to the last committed height) and, after the lost calls are fed again, obs(A)==obs(B). distinct = sha256 of op list; non-trivial = a commit was followed by a comparison or uncommitted work was actually lost".into()
+        "case = seeded history executed on replica A with its commit schedule {every block, every k, random}, clearCaches (block boundary and mid-block) and restarts (with/without commit) inserted, and on replica B that never commits and is never disturbed; reorgs (biased to depth 9-10) and re-submissions of orphaned transactions are executed by both. Oracles: every call result equal on A and B; obs(A)==obs(B) after every commit, after commit+restart and at sampled block boundaries; after clearCaches / restart without commit obs(A)==obs(fresh replay up to the last committed height) and, after the lost calls are fed again, obs(A)==obs(B). distinct = sha256 of op list; non-trivial = a commit was followed by a comparison or uncommitted work was actually lost".into()
     }
     fn assumptions(&self) -> Vec<String> {
-        vec!["reorgs are excluded here (a reorg commits as a side effect; C01/C04 cover reorg x commit)".into()]
+        vec!["reorgs are executed by both replicas (the never-committing replica then commits only through reorgs)".into()]
     }
     fn execute(&self, case: &Value) -> RunOut {
         let sc = scenario_of(case);
@@ -91,7 +93,6 @@ impl Prop for C03 {
 
         'ops: for (i, op) in sc.ops.iter().enumerate() {
             match op {
-                Op::Reorg { .. } => continue,
                 Op::Commit => {
                     let rs = a.exec(i, op);
                     if let Some(p) = any_panic(&rs) {
